@@ -155,6 +155,11 @@ def arith(spec, ctx):
         op = ops[n % len(ops)]
         n += 1
         args = intops.gen_args(rng, intops.OPS[op][0])
+        if op in ("pow3", "pow3_odd", "ipow") and args[-1] > 1 and rng.random() < 0.08:
+            m_ = args[-1]
+            args[0] = rng.choice([0, m_, -m_, 5 * m_, 0, 1, m_ + 1, m_ - 1])
+            args[1] = rng.choice([0, 0, 0, 1, 2])
+            ctx.count("zero_to_the_zero_operands:" + be)
         if op in ("sqrt", "is_perfect_square") and rng.random() < 0.5:
             args[0] = intops.near_square(rng)
             ctx.count("near_square_operands:" + be)
